@@ -60,17 +60,17 @@ CLAIMS = {
    ref="4/C09"),
  "C14": dict(
    text="Symbolic execution of the real front half on skeleton packages (native go/types objects) for every entry of a menu of 96 malformed / misplaced / wrongly-shaped notations and referenced function signatures, combined with toggles: Go run-time panics are first-class outcomes of the executor (nil dereference, index, slice, makeslice, type assertion, native panics inside go/types calls) and an implicit obligation on every path; rejection must carry a positioned diagnostic; success must keep every method. Plus -out = input. Counterexamples are replayed natively on the materialised skeleton.",
-   note=TB+"Programs: skeletons bad/basic; notation texts from menus, not arbitrary byte strings. Panics/hangs inside go/packages, imports, regexp are outside.",
+   note=TB+"Programs: skeletons bad/basic/dup/sel; C14MainReports runs the REAL main() (harness injected into package main by overlay) with every stage summarised: every non-zero exit is preceded by a message on standard error. Notation texts from menus, plus C14NotationBytes: the real parseNotationInComments on one notation line whose ARGUMENT TEXT is an arbitrary ASCII byte string of up to 4 (thorough 5) bytes (reNotation run by a leftmost-first backtracking matcher whose character-class tests on symbolic bytes are path decisions; go/parser.ParseExpr on symbolic text is an arbitrary consistent predicate). Panics/hangs inside go/packages, imports, regexp are outside.",
    technique="symbolic execution of go/ssa with native go/types bridge; panic-freedom as path outcome; native replay",
    ref="4/C14"),
  "C04": dict(
-   text="Symbolic execution of the real assignment builder over a 35x35 matrix of Go field-type pairs (native go/types objects) with the four toggles and the match rule as symbolic inputs: every decision is compared with an independent reference matcher written from the property statement on go/types facts (AssignableTo/ConvertibleTo/method sets), including the stand-alone implications (no conversion / String() / getter without opt-in, nothing matched under :match none), and every emitted function is type-checked.",
+   text="Symbolic execution of the real assignment builder over a 45x45 matrix of Go field-type pairs (native go/types objects) with the four toggles and the match rule as symbolic inputs: every decision is compared with an independent reference matcher written from the property statement on go/types facts (AssignableTo/ConvertibleTo/method sets), including the stand-alone implications (no conversion / String() / getter without opt-in, nothing matched under :match none), and every emitted function is type-checked.",
    note=TB+"Programs: skeleton types (+ names when registered); field names concrete (arbitrary-string comparison is C19).",
    technique="symbolic execution of go/ssa with native go/types bridge; differential against a reference matcher; Go type checker as judge; native replay",
    ref="4/C04"),
  "C05": dict(
-   text="Symbolic execution of the real assignment builder on shape skeletons (native go/types objects) for every pair of notations from a 77x13 menu: an independent walker recomputes the reachable destination leaves from go/types and each must be covered by exactly one emitted line (on itself or an enclosing path), members invisible to the package must never be mentioned (incl. a setup package sharing its NAME with the imported one), every no-match must be warned on stderr with a position; plus the 35x35 type matrix. Emitted functions are type-checked.",
-   note=TB+"Programs: skeletons shapes, samename, types.",
+   text="Symbolic execution of the real assignment builder on shape skeletons (native go/types objects) for every pair of notations from a 110x13 menu: an independent walker recomputes the reachable destination leaves from go/types and each must be covered by exactly one emitted line (on itself or an enclosing path), members invisible to the package must never be mentioned (incl. a setup package sharing its NAME with the imported one), every no-match must be warned on stderr with a position; plus the 45x45 type matrix. Emitted functions are type-checked.",
+   note=TB+"Programs: skeletons shapes, samename, types; corpus case nested. Destination leaves are enumerated through by-value struct nesting only (paths through pointers are outside), blank fields are no fields, a struct none of whose members is visible is a leaf of its own.",
    technique="symbolic execution of go/ssa with native go/types bridge; independent leaf walker; Go type checker as judge; native replay",
    ref="4/C05"),
  "C06": dict(
@@ -90,7 +90,7 @@ CLAIMS = {
    ref="4/C16"),
  "C02": dict(
    text="Symbolic execution of the GENERATED code: the tool built from the current tree is run on a hand-written corpus at check time, the emitted functions are executed symbolically (operands arbitrary: symbolic scalars, nil-ness of nested pointers, slice lengths 0..2/nil) next to independent hand-written reference functions; the solver decides equality of results, final operand states, returned errors and user-function call traces for all operand values, and absence of Go run-time panics; sampled paths are replayed natively (go test on the real generated code) to validate the encoding.",
-   note=TB+"Programs: the corpus (5 cases, 40 generated functions); integer wrap-around and float arithmetic are not interpreted (conversions uninterpreted on both sides); panics inside user code are outside.",
+   note=TB+"Programs: the corpus (6 cases, 52 generated functions); integer wrap-around and float arithmetic are not interpreted (conversions uninterpreted on both sides); panics inside user code are outside.",
    technique="symbolic execution of the tool's generated code (go/ssa) against reference functions, SMT equality of symbolic results, native replay",
    ref="4/C02"),
  "C12": dict(
